@@ -85,6 +85,24 @@ partial def termToGo : Term → GoVal
   | .list [.atom "NT", .atom "10"] =>
     .ptr (some (.struct [(b "embInner", false, .ptr (some (.struct [(b "Secret", true, .str (b "s")), (b "Pub", true, .int 3)]))),
       (b "EmbBase", true, .ptr (some (.struct [(b "ID", true, .int 4), (b "Tag", true, .str (b "u"))]))), (b "Name", true, .str (b "w3"))]))
+  -- types with String / Error / Marshal* methods: converted by their kind
+  | .list [.atom "NT", .atom "11"] => .struct [(b "Amount", true, .int 12), (b "Cur", true, .str (b "EUR"))]
+  | .list [.atom "NT", .atom "12"] => .struct [(b "Code", true, .int 7), (b "Msg", true, .str (b "boom"))]
+  | .list [.atom "NT", .atom "13"] => .ptr (some (.struct [(b "Title", true, .str (b "T")), (b "N", true, .int 2)]))
+  | .list [.atom "NT", .atom "14"] => .str (b "en")
+  | .list [.atom "NT", .atom "15"] => .int 3
+  | .list [.atom "NT", .atom "16"] => .int 1500000000
+  | .list [.atom "NT", .atom "17"] =>
+    .struct [(b "Tags", true, .slice []), (b "Items", true, .slice []), (b "Attrs", true, .map []), (b "Any", true, .map []), (b "Ptr", true, .ptr none)]
+  | .list [.atom "NT", .atom "18"] => .float 2.5
+  | .list [.atom "NT", .atom "19"] => .bool true
+  | .list [.atom "NT", .atom "20"] =>
+    .map [(b "byName", .map [(b "x", .struct [(b "Amount", true, .int 3), (b "Cur", true, .str (b "c"))])]),
+      (b "errs", .slice [.struct [(b "Code", true, .int 1), (b "Msg", true, .str (b "e1"))]]),
+      (b "langs", .slice [.str (b "de"), .str (b "fr")]),
+      (b "levels", .slice [.int 1, .int 2]),
+      (b "prices", .slice [.struct [(b "Amount", true, .int 1), (b "Cur", true, .str (b "a"))], .struct [(b "Amount", true, .int 2), (b "Cur", true, .str (b "b"))]]),
+      (b "strs", .slice [.struct [(b "Amount", true, .int 4), (b "Cur", true, .str (b "d"))], .str (b "it")])]
   | .list [.atom "NT", .atom _] => .struct []
   | _ => .other "?"
 where
